@@ -174,7 +174,9 @@ impl<'a> Runner<'a> {
                 }
             }
             if let (Op::Save, Some(_)) = (&op, self.store) {
-                self.saved = Some(d.vars.iter().cloned().collect());
+                if d.res == "ok" {
+                    self.saved = Some(d.vars.iter().cloned().collect());
+                }
             }
         }
         self.last[k] = Some(d.clone());
@@ -239,6 +241,20 @@ impl<'a> Runner<'a> {
                     format!("{}: before={} after={} expected={} (member {:?}, instance {:?})", i.path, before, after, expected, i.pol, i.owner_pol),
                 ),
             }
+        }
+    }
+
+    /// Save clause: whenever a save returned Ok, the storage medium holds the snapshot of the state
+    /// at that call (every RETAIN/PERSISTENT global of retainable type, nothing else).
+    fn check_store_holds_state(&mut self, d: &Dump, what: &str) {
+        let expected: Vec<(String, String)> = self
+            .infos
+            .iter()
+            .filter(|i| i.kind == Kind::Global && i.retains())
+            .filter_map(|i| d.var(&i.path).map(|v| (i.path.clone(), v.to_string())))
+            .collect();
+        if d.store != expected {
+            self.fail("save-ok-store", format!("after an Ok {what} the store holds {:?}, the state is {:?}", d.store, expected));
         }
     }
 
@@ -421,7 +437,16 @@ impl<'a> Runner<'a> {
     fn step(&mut self, step: &Step) -> Result<(), String> {
         match step {
             Step::Cycle(dt) => {
-                self.op(0, Op::Cycle(*dt))?;
+                let d = self.op(0, Op::Cycle(*dt))?;
+                if d.res == "ok" && self.store == Some(true) {
+                    self.check_store_holds_state(&d, "autosaving cycle");
+                }
+                if d.res == "e:RetainStore" {
+                    // a storage fault is an input the twin (which never saves) does not receive:
+                    // the two no longer see the same trace, the comparison ends here
+                    self.twin = None;
+                    self.out.count("twin_sessions_ended_by_storage_fault");
+                }
                 if self.twin.is_some() {
                     self.op(1, Op::Cycle(*dt))?;
                     self.compare_twin("cycle");
@@ -453,7 +478,14 @@ impl<'a> Runner<'a> {
                 self.op(0, Op::Store(*a))?;
             }
             Step::Save => {
-                self.op(0, Op::Save)?;
+                let d = self.op(0, Op::Save)?;
+                if d.res == "ok" {
+                    self.check_store_holds_state(&d, "save");
+                }
+                self.out.count(if d.res == "ok" { "saves_ok" } else { "saves_failed" });
+            }
+            Step::EnvW(w) => {
+                self.op(0, Op::EnvW(*w))?;
             }
             Step::Restart(m) | Step::Rwr(m) => {
                 let with_load = matches!(step, Step::Rwr(_));
@@ -498,8 +530,19 @@ impl<'a> Runner<'a> {
 /// Runs one case on the implementation and appends it to `out`.  Returns the known-finding
 /// signatures it reproduced.
 fn run_case(n: u64, case: &Case, profile: &str, out: &mut Out, tmp: &std::path::Path) -> Result<BTreeSet<String>, String> {
-    let store_path = tmp.join(format!("c09_{}_{n}.retain", std::process::id()));
-    let _ = std::fs::remove_file(&store_path);
+    let dir = tmp.join(format!("c09_{}_{n}", std::process::id()));
+    let _ = std::fs::remove_dir_all(&dir);
+    let medium = if case.scripted_store {
+        exec::Medium::Scripted(std::sync::Arc::new(std::sync::Mutex::new(exec::ScriptedMedium {
+            content: None,
+            writable: !case.store_starts_unwritable,
+        })))
+    } else {
+        if !case.store_starts_unwritable {
+            std::fs::create_dir_all(&dir).map_err(|e| format!("mkdir: {e}"))?;
+        }
+        exec::Medium::File { dir: dir.clone(), path: dir.join("retain.bin") }
+    };
     out.line(format!("case {n}"));
     for l in case.describe() {
         out.line(l);
@@ -511,7 +554,7 @@ fn run_case(n: u64, case: &Case, profile: &str, out: &mut Out, tmp: &std::path::
     ));
     let mut r = Runner {
         n,
-        exec: Exec::new(case, store_path.clone()),
+        exec: Exec::new(case, medium),
         infos: infos(case),
         flags: fl,
         out,
@@ -523,6 +566,9 @@ fn run_case(n: u64, case: &Case, profile: &str, out: &mut Out, tmp: &std::path::
         fails: Vec::new(),
     };
     let d0 = r.op(0, Op::Build)?;
+    if case.store_starts_unwritable {
+        r.op(0, Op::EnvW(false))?;
+    }
     // the build itself: every variable has its declared (or VAR_CONFIG) initial value
     for i in r.infos.clone() {
         match d0.var(&i.path) {
@@ -544,10 +590,7 @@ fn run_case(n: u64, case: &Case, profile: &str, out: &mut Out, tmp: &std::path::
         r.step(step)?;
     }
     let known = r.known.clone();
-    let _ = std::fs::remove_file(&store_path);
-    let mut tmpf = store_path.as_os_str().to_owned();
-    tmpf.push(".tmp");
-    let _ = std::fs::remove_file(std::path::PathBuf::from(tmpf));
+    let _ = std::fs::remove_dir_all(&dir);
     if nontrivial {
         out.line("tag nontrivial");
     }
